@@ -32,7 +32,7 @@ BORROWED = {
     "C08": {"C02": {"C02-D1 shape": "C08-r3-2"},
             "C03": {"C03-D3 union alternatives and order": "C08-r3-2"}},
     "C09": {"C04": {"C04-D1b authentication block": "C09-r4-2", "C04-D3 fixed-width r||s": "C09-r4-1"}},
-    "C10": {"C11": {"C11-D1a selection": "C10-r3-1, C10-r4-3"},
+    "C10": {"C11": {"C11-D1a selection": "C10-r3-1, C10-r4-3", "C11-D1c pairing": "C10-r5-3"},
             "C18": {"C18-D2 no shared state written after import": "C10-r2-2"}},
     "C11": {"C10": {"C10-D2r padding result (refutation)": "C11-r4-3"}},
     "C13": {"C19": {"C19-D2 build glue": "C13-r3-1", "C19-D1d root: installed-manifest identifiers and coverage": "C13-r5-3"}},
